@@ -371,7 +371,20 @@ func VH08f_wide() {
 		}
 		verif.Reach("wide-forwarded")
 	}
-	base := make([]int, W)
+	// one of the many peers leaves (first, middle, last or none) and possibly a newcomer joins
+	switch verif.Choice("leaves", 4) {
+	case 1:
+		pipes[0].Drop()
+	case 2:
+		pipes[W/2].Drop()
+	case 3:
+		pipes[W-1].Drop()
+	}
+	verif.Quiesce()
+	if verif.Choice("joins", 2) == 1 {
+		pipes = append(pipes, side.Peer("newcomer"))
+	}
+	base := make([]int, len(pipes))
 	for i, p := range pipes {
 		base[i] = len(p.Sent)
 	}
@@ -384,6 +397,10 @@ func VH08f_wide() {
 	verif.Assert(sock.SendMsg(m) == nil, lab+"/send-own")
 	verif.Quiesce()
 	for i, p := range pipes {
+		if p.Closed {
+			verif.Assert(len(p.Sent) == base[i], lab+"/message-written-to-a-detached-connection")
+			continue
+		}
 		verif.Assert(len(p.Sent) == base[i]+1, lab+"/own-message-not-sent-exactly-once-to-every-peer")
 		if len(p.Sent) == base[i]+1 {
 			verif.Assert(verif.BytesEq(p.Sent[base[i]].B, own), lab+"/own-message-changed")
